@@ -349,6 +349,19 @@ func (x *Exec) evalIdent(name string, c *evalCtx) (typed, error) {
 			}
 		}
 	}
+	// a local of the function that was not (yet) allocated on this path: its value is irrelevant there
+	if c.fr != nil {
+		for f := c.fr; f != nil; f = f.parent {
+			for _, b := range f.fn.Blocks {
+				for _, in := range b.Instrs {
+					if a, ok := in.(*ssa.Alloc); ok && a.Comment == name && x.isRegCell(a) {
+						v := x.ctx.Fresh("dead$"+name, x.sortOf(deref(a.Type())))
+						return tv(v, deref(a.Type())), nil
+					}
+				}
+			}
+		}
+	}
 	switch name {
 	case "bempty":
 		x.bytesVocab()
